@@ -61,7 +61,7 @@ CLAIMED['C07'] = dict(
 
 CLAIMED['C03'] = dict(
    category='translation_validation',
-   text="No round-trip theorem yet (C03_full_statement is stated in props/C03.v; proof plan in DESIGN Appendix B; proved: the index arithmetic ring distances and branch lengths rest on). The property is decided per input by certified validation: an independent SMILES reader and the predicate same_molecule are Coq definitions (spec/Reader.v, spec/RoundTrip.v), extracted, and run on the input and on the implementation's decoder(encoder(s)) - atom for atom - over re-spelt and mutated molecules and several tables; encoder and decoder models are compared with the implementation on the same inputs.",
+   text="No full round-trip theorem yet (C03_full_statement is stated in props/C03.v; proof plan in DESIGN Appendix B). Proved for ALL accepted SMILES, tables and strict: the index arithmetic ring distances and branch lengths rest on, and the ATOM half at the level of symbols (C03_symbols_faithful_partial; proofs/EncAttr.v, EncFaithful.v): the k-th atom of the graph is the atom read from the k-th atom token of the input, kekulize and the inversion pass change only its aromatic flag / chirality tag, every atom symbol of the output is printed from one atom of that graph and the decoder's own symbol reader reads it back with the same element, isotope, charge and H count - no atom is altered on its way into the SELFIES string. Not proved: that the derivation keeps every symbol and rebuilds the same bonds. The property is decided per input by certified validation: an independent SMILES reader and the predicate same_molecule are Coq definitions (spec/Reader.v, spec/RoundTrip.v), extracted, and run on the input and on the implementation's decoder(encoder(s)) - atom for atom - over re-spelt and mutated molecules and several tables; encoder and decoder models are compared with the implementation on the same inputs.",
    technique="extracted Coq reader + same_molecule as per-input validator of the implementation's round trip; differential correspondence of the encoder model; Coq proof of the index arithmetic only",
    design_ref="5/C03")
 CLAIMED['C04'] = dict(
@@ -70,7 +70,7 @@ CLAIMED['C04'] = dict(
    technique="extracted Coq stereo-parity oracle as per-input validator; differential correspondence of the encoder model; parity lemma in Coq",
    design_ref="5/C04")
 CLAIMED['C05'] = dict(
-   text="Proof of the checker and of the refutation: the soundness statement for find_perfect_matching is FALSE of the faithful model (C05_statement_refuted, 8-node witness; known findings F-C05-*), is_perfect_matching is proved to mean 'fixed-point-free involution along edges'. Every accepted aromatic input is validated with the implementation's own answer as certificate: kekule_ok (independent pi-bond rule), has_kekule_structure (exact search) for rejections, acceptance equal across spellings of fused/bridged/cage templates incl. C60; the matching routine itself on random max-degree-3 graphs; model of kekulize / matching (CPython set order included) compared exactly.",
+   text="Proved for all inputs: whenever the reader and kekulize succeed NO atom is left aromatic (C05_kekulize_clears_every_aromatic_atom; proofs/EncArom.v: every aromatic atom is a key of the delocalisation subgraph from the moment it is added, keys are never removed, kekulize clears every key). Proof of the checker and of the refutation: the soundness statement for find_perfect_matching is FALSE of the faithful model (C05_statement_refuted, 8-node witness; known findings F-C05-*), is_perfect_matching is proved to mean 'fixed-point-free involution along edges'. Every accepted aromatic input is validated with the implementation's own answer as certificate: kekule_ok (independent pi-bond rule), has_kekule_structure (exact search) for rejections, acceptance equal across spellings of fused/bridged/cage templates incl. C60; the matching routine itself on random max-degree-3 graphs; model of kekulize / matching (CPython set order included) compared exactly.",
    technique="Coq refutation + proved checker run on implementation outputs (certified per-input validation) + exact correspondence of the matching/kekulisation model",
    design_ref="5/C05")
 CLAIMED['C06'] = dict(
